@@ -117,9 +117,18 @@ class LiftConstantsToInitializersPass(ir.passes.InPlacePass):
             tensor = ir.tensor(
                 attr_value.as_floats(), dtype=ir.DataType.FLOAT, name=initializer_name
             )
-        elif attr_name in ("value_string", "value_strings"):
+        elif attr_name == "value_string":
+            # Encode explicitly: numpy would only accept ASCII text
             tensor = ir.StringTensor(
-                np.array(attr_value.value, dtype=np.bytes_), name=initializer_name
+                np.array(attr_value.as_string().encode("utf-8"), dtype=np.bytes_),
+                name=initializer_name,
+            )
+        elif attr_name == "value_strings":
+            tensor = ir.StringTensor(
+                np.array(
+                    [s.encode("utf-8") for s in attr_value.as_strings()], dtype=np.bytes_
+                ),
+                name=initializer_name,
             )
         else:
             raise ValueError(
